@@ -50,3 +50,11 @@ add("C19", "exploration",
     "15 recognised option names with and without the matching user option, are compared field-for-field (all public fields plus logger/transport wiring) against "
     "a documentation-derived effect table folded left to right. Logger delivery is checked per layer on live sessions over device models. Values come from fixed pools.",
     "DESIGN.md §3 C19", "differential runtime monitor: option effect table folded over PRNG option lists vs whole-object reflective snapshots of the real constructors; behavioural logger delivery over device models")
+
+add("C09", "exploration",
+    "Exploration. All 12 cells of the advertised x preferred table are enumerated in both tiers, plus 8 kinds of hello-less first message x 3 preferences. Per cell, "
+    "150 (quick) / 4000 (thorough) PRNG-generated hellos (declaration, layouts, nc: prefix or none, 0-40 extra capabilities incl. URNs that merely contain a base URN, "
+    "order, session-id 1..2^32-1 or absent) x echo x read segmentation. Each run checks error class, transport close, selected version, capability list, session-id, "
+    "the client's single EOM-framed hello with exactly the selected base, and the framing of the next two RPCs with an independent strict codec. Hellos outside the "
+    "stated form and transport faults during the exchange are not covered.",
+    "DESIGN.md §3 C09", "real netconf.Driver.Open + RPCs against a strict NETCONF server model over a causal PRNG-segmented transport; reference = 12-cell decision table + encoding/xml reading of the sent hello")
